@@ -3,6 +3,7 @@
 // 1e-8 * rho * max(1, d)  (d = straight-line distance / rho), headings in 1e-8 rad.
 #pragma once
 #include "c14_observe.h"
+#include <array>
 
 namespace c14
 {
@@ -61,7 +62,12 @@ namespace c14
                     where[k] = *cur;
             }
             ++n[k];
+            for (int i = 0; i < 4; ++i)
+                if (a > THRESH[i])
+                    ++big[k][i];
         }
+        static constexpr double THRESH[4] = {1e-9, 1e-7, 1e-5, 1e-3};
+        std::map<std::string, std::array<long, 4>> big;  // how many observations exceeded each threshold
     };
 
     inline int signOf(double v, double eps)
@@ -138,7 +144,7 @@ namespace c14
             std::vector<Sample> smp;
             CurveObs cv;
             Pose endP{NAN, NAN, NAN};
-            std::vector<long long> pre;
+            std::vector<long long> pre, preLo, preHi;
             std::vector<int> isegs;
             if (pathFinite)
             {
@@ -171,6 +177,17 @@ namespace c14
                 {
                     sp->interpolate(a.s, b.s, k / 8.0, s.s);
                     pre.push_back(sc.U(sp->distance(a.s, s.s)));
+                    // the six-word optimum (envelope over the library's input resolution) for the prefix's end point
+                    Pose P = s.get();
+                    Envelope ek = envelope(canon(A, P, rho));
+                    if (sym)
+                    {
+                        Envelope er = envelope(canon(P, A, rho));
+                        ek.lo = std::min(ek.lo, er.lo);
+                        ek.hi = std::min(ek.hi, er.hi);
+                    }
+                    preLo.push_back(sc.U(ek.lo * rho));
+                    preHi.push_back(sc.U(ek.hi * rho));
                 }
             }
             else
@@ -228,6 +245,8 @@ namespace c14
             e["back"] = cv.back;
             e["shape"] = cv.shape;
             e["pre"] = pre;
+            e["preLo"] = preLo;
+            e["preHi"] = preHi;
             e["nseg"] = 3;
             std::vector<int> nz;
             for (double v : segOrd)
@@ -274,6 +293,18 @@ namespace c14
                 {
                     LD df = (LD)pre[k - 1] / UNIT - (LD)k / 8 * rep / n;
                     stat.see(tag + (df < 0 ? "prefix-shorter" : "prefix-longer"), df);
+                }
+                for (int k = 1; k <= 7; ++k)
+                {
+                    LD tr = (LD)k / 8 * rep / n, lo_ = (LD)preLo[k - 1] / UNIT, hi_ = (LD)preHi[k - 1] / UNIT, pk = (LD)pre[k - 1] / UNIT;
+                    if (pk > hi_)
+                        stat.see(tag + "pre-above-env", pk - hi_);
+                    if (pk < lo_)
+                        stat.see(tag + "pre-below-env", lo_ - pk);
+                    if (tr < lo_)
+                        stat.see(tag + "prefixlen-below-env", lo_ - tr);
+                    if (tr > hi_ && !sym)
+                        stat.see(tag + "prefixlen-above-env", tr - hi_);
                 }
                 if (sym)
                     stat.see(tag + "sym", (rep - repRev) / n);
